@@ -17,6 +17,8 @@ Hypotheses that appear and why:
   the shown chunk is unique (`newest_unique`, `order_unique`).
 -/
 import SwV.Lemmas.C17b
+import SwV.Lemmas.C17c
+import SwV.Gen.C17
 namespace SwV.Props.C17
 open SwV.Model.C17 SwV.Spec.C17 SwV.Lemmas.C17
 
@@ -523,5 +525,52 @@ theorem streamContent_drops_holes :
   unfold streamContent viewFromChunks nonOverlapping
   rw [hr, hsrt]
   decide
+
+/-- `_partial`: on a window without holes (hypothesis = the complement of the known finding's class)
+    StreamContent writes exactly `size` bytes, byte i being a legal content byte of position offset+i -/
+theorem streamContent_partial (data : Nat → Nat → Nat) (ns : List Node) (hw : wellFormed ns = true) (offset size : Nat)
+    (hstop : viewStop offset size = offset + size)
+    (hnh : ∀ p, offset ≤ p → p < offset + size → ∃ c ∈ flatten ns, covers c p) :
+    streamContent data ns offset size = (List.range' offset size).map (viewByte data (viewFromChunks ns offset size)) ∧
+    ∀ p, offset ≤ p → p < offset + size → ByteOk data (flatten ns) p (viewByte data (viewFromChunks ns offset size) p) := by
+  have ho := model_order offset (offset + size) ns
+  obtain ⟨h1, h2, h3⟩ := views_eq_overlay ns hw offset size hstop _ ho
+  constructor
+  · unfold streamContent
+    rw [viewFromChunks_eq]
+    have := stream_of_contiguous data (offset + size) _ offset h1 h2 (by
+      intro p hp1 hp2
+      apply Classical.byContradiction
+      intro hcon
+      obtain ⟨c, hc, hcov⟩ := hnh p hp1 hp2
+      exact (h3 p hp1 hp2).2 (fun w hw' hv => hcon ⟨w, hw', hv⟩) c hc hcov)
+    rw [this, Nat.add_sub_cancel_left]
+  · intro p hp1 hp2
+    rw [viewFromChunks_eq]
+    exact viewByte_ok data ns hw offset size hstop _ ho p hp1 hp2
+
+example : ∀ p, 0 ≤ p → p < 0 + 2 → ∃ c ∈ flatten [.data ⟨0, 2, 1, 1, 1⟩], covers c p := by
+  intro p _ h; exact ⟨⟨0, 2, 1, 1, 1⟩, by simp [flatten], by unfold covers; simp; omega⟩
+
+/-! ### bridges to the regenerated source facts (T1) -/
+
+/-- the `min`/`max` helpers of filechunks.go (used by the window filter, the view clipping and the reader)
+    are the minimum/maximum the model uses -/
+theorem bridge_min (a b : Nat) : SwV.Gen.C17.min (a : Int) (b : Int) = ((Nat.min a b : Nat) : Int) := by
+  unfold SwV.Gen.C17.min
+  by_cases h : a ≤ b
+  · simp [h, Nat.min_eq_left h]
+  · have : b ≤ a := by omega
+    simp [Nat.min_eq_right this]; omega
+
+theorem bridge_max (a b : Nat) : SwV.Gen.C17.max (a : Int) (b : Int) = ((Nat.max a b : Nat) : Int) := by
+  unfold SwV.Gen.C17.max
+  by_cases h : a ≤ b
+  · simp [h, Nat.max_eq_right h]
+  · have : b ≤ a := by omega
+    simp [Nat.max_eq_left this]; omega
+
+/-- MaybeManifestize's merge factor is positive (the batching loop terminates; `manifestize` is stated for every k) -/
+theorem bridge_manifest_batch : 0 < SwV.Gen.C17.ManifestBatch := by decide
 
 end SwV.Props.C17
